@@ -18,7 +18,7 @@ use crate::rec::{FriShape, RecUni};
 
 pub fn draw<R: RecUni>(rng: &mut Rng, ctx: &Ctx) -> ShapeSpec {
     let fri = FriShape {
-        log_blowup: *rng.pick(&[1, 2, 3]),
+        log_blowup: (*rng.pick(&[1, 2, 3])).max(R::MIN_LOG_BLOWUP),
         log_final_poly_len: *rng.pick(&[0, 0, 1, 2]),
         max_log_arity: *rng.pick(&[1, 2, 3, 4]),
         num_queries: *rng.pick(&[1, 2, 3]),
@@ -207,18 +207,14 @@ pub fn main(ctx: &Ctx) -> i32 {
         let mut out = RunOut::default();
         let mut rng = Rng::new(ctx.seed, "C07", idx);
         foldhash::sim::set_seed(mix(ctx.seed, idx));
-        let kb = idx % 2 == 0;
-        let spec = if kb { draw::<crate::rec::kb4::U>(&mut rng, ctx) } else { draw::<crate::rec::bb4::U>(&mut rng, ctx) };
+        let uni = crate::rec::universe_of(idx);
+        let spec = crate::with_rec_universe!(uni, U, draw::<U>(&mut rng, ctx));
         if out.samples.is_empty() {
             out.samples.push(json!({"idx": idx, "shape": {"universe": spec.universe, "kind": spec.kind, "fri": spec.fri, "log_n": spec.log_n, "lanes": [spec.public_lanes, spec.alu_lanes], "program_calls": spec.program.as_ref().map(|p| p.calls.len())}}));
         }
         out.count(&format!("arity_max_{}", spec.fri.max_log_arity));
         out.count(&format!("final_poly_log_{}", spec.fri.log_final_poly_len));
-        if kb {
-            c01::run_shape::<crate::rec::kb4::U>(ctx.seed, idx, &spec, ctx.tier, None, &mut out);
-        } else {
-            c01::run_shape::<crate::rec::bb4::U>(ctx.seed, idx, &spec, ctx.tier, None, &mut out);
-        }
+        crate::with_rec_universe!(uni, U, c01::run_shape::<U>(ctx.seed, idx, &spec, ctx.tier, None, &mut out));
         for j in 0..ctx.tier.pick(4u64, 8) {
             pcs_arm(ctx, idx * 16 + j, &mut out);
         }
